@@ -257,6 +257,22 @@ func SizeValues(dense uint64, neigh uint64) []uint64 {
 	}
 	around(^uint64(0))
 	around(1 << 63)
+	// decimal-round factors on binary units (1000 KiB, 250 MiB, 7 000 000 GiB ...): d x 10^j x 1024^k
+	for k := uint(0); k <= 6; k++ {
+		p := uint64(1)
+		for j := 0; j <= 19; j++ {
+			for _, d := range []uint64{1, 2, 5, 25, 125} {
+				m := d * p
+				if m/d == p && m<<(10*k)>>(10*k) == m {
+					add(m << (10 * k))
+				}
+			}
+			if p > (^uint64(0))/10 {
+				break
+			}
+			p *= 10
+		}
+	}
 	// every (unit index, digit count) cell: value = d-digit number x 1024^k (odd so that it is not shortened further)
 	for k := uint(0); k <= 6; k++ {
 		p := uint64(1)
